@@ -47,7 +47,7 @@ func c07Gen(c *vfCtx, emit func(c07Case)) {
 	}
 	names := []string{"TestA", "TestA/s", "TestAB", "FuzzA/seed#0", "Test1", "TestA/c_01", "TestA/c_1"}
 	if c.thorough() {
-		names = append(names, "TestB", "TestA/s#01", "BenchmarkX", "TestA/c_001")
+		names = append(names, "TestB", "TestA/s#01", "BenchmarkX", "TestA/c_001", "TestA/a:b", "TestA/[x]", "TestA/x.snap", "TestA/_%d", "TestÜ/ä")
 	}
 	counts := []int{1, 2, 3}
 	for ni, n1 := range names {
